@@ -35,6 +35,7 @@ def main():
     real_stdout = sys.stdout
     sys.stdout = open(os.devnull, 'w')
     from vf.drive import session
+    session.REUSE_CLASSES[0] = True  # calls with an equal (symbol, script) pass the very same strategy class object
     out = None
     summaries = []
     held = []
